@@ -13,7 +13,11 @@ from .common import Check, sx
 
 RULE = ("boundary corpus (22 small documents squared: every scalar type change 1/1.0/true/\"1\", value<->table "
         "conflicts, tables to depth 3, dotted headers and keys, out-of-order tables, [[array-of-tables]], "
-        "multi-line values, CRLF, no final newline; each also with no existing file) then seeded random pairs "
+        "multi-line values, CRLF, no final newline; each also with no existing file; round 2: 146 first-run documents "
+        "with one line that contains U+2028 / U+2029 / U+0085 (in a basic or literal string, a comment, a trailing "
+        "comment, a quoted key) followed by a header / array-header / key / comment look-alike, those three "
+        "between a number and the end of the line, VT / FF / FS / GS / RS in a comment (not TOML)) then seeded random pairs "
+        "(1.5 % of the strings, comments, trailing comments and 0.75 % of the keys carry such a character) "
         "(independent documents over one small key alphabet, and user files derived from the defaults), every "
         "case through the real load_config_toml under a fresh XDG_CONFIG_HOME, with a second and third load "
         "after a first-run write; non-trivial = distinct case in which the user file sets at least one key "
@@ -491,6 +495,11 @@ def main(argv=None):
                                                          and any(k in dict(pd[1]) for k, _ in pu[1]))
         ck.note_case([d.text, None if u is None else u.text], nontrivial=nontrivial)
         ck.count("default lines=%d" % min(len(d.lines), 20))
+        if G.has_line_separator(d.text):
+            ck.count("default has a line with a character at which str.splitlines() splits (U+2028/U+2029/U+0085/VT/FF/FS/GS/RS)"
+                     + (": first run" if u is None else ""))
+        if u is not None and G.has_line_separator(u.text):
+            ck.count("user file has a line with a character at which str.splitlines() splits")
         if d.header_under_aot:
             ck.count("default has a [table] under an [[array]]")
         if section_under_inline_table(d, u):
